@@ -30,7 +30,7 @@ import os, sys, json, time, itertools, random, tempfile
 sys.path.insert(0, os.path.dirname(os.path.abspath(__file__)))
 import llvmx
 from symx import Stuck, write_if_changed
-from kern_mword import parse_sexp, prog_outs, le64, be64, be32, xor_all, prog, bytes_of_be, bswap64
+from kern_mword import parse_sexp, prog_outs, le64, be64, be32, xor_all, prog, bytes_of_be, bswap64, coq_desc
 
 MAXS = 4
 WB = 8 * MAXS          # bytes of one masked word
@@ -121,6 +121,8 @@ def rotr64(e, k):
 
 class A64:
     """64-bit sliced masked words (C64 backend, x86-64 assembly)"""
+    coq = "B64"
+
     @staticmethod
     def logical(base, j):
         return rotl64(le64(base + 8 * j), 11 * j)
@@ -128,6 +130,8 @@ class A64:
 
 class A32:
     """32-bit sliced masked words (C32 backend)"""
+    coq = "B32"
+
     @staticmethod
     def logical(base, j):
         h = lambda off: le32(off) if j == 0 else "(WRotr %d %s)" % (32 - 5 * j, le32(off))
@@ -178,38 +182,40 @@ def units_of(s):
 
 
 def candidates(unit, size):
+    """(name, expression, the same choice as a constructor of Obl/MWordSpec.rentry)"""
     if len(unit) == 1:
         r = "(WIn %d)" % unit[0]
-        c = [("id", r), ("bswap", bswap64(r))]
+        c = [("id", r, "RId %d" % unit[0]), ("bswap", bswap64(r), "RBswap %d" % unit[0])]
         if size:
-            c += [("rotr%d" % (8 * size), rotr64(r, 8 * size)), ("bswap.rotr%d" % (8 * size), rotr64(bswap64(r), 8 * size)),
-                  ("rotl%d" % (8 * size), rotl64(r, 8 * size))]
+            c += [("rotr%d" % (8 * size), rotr64(r, 8 * size), "RRotr %d %d" % (8 * size, unit[0])),
+                  ("bswap.rotr%d" % (8 * size), rotr64(bswap64(r), 8 * size), "RBswapRotr %d %d" % (8 * size, unit[0])),
+                  ("rotl%d" % (8 * size), rotl64(r, 8 * size), "RRotl %d %d" % (8 * size, unit[0]))]
         return c
     a, b = "(WIn %d)" % unit[0], "(WIn %d)" % unit[1]
-    c = [("even/odd", "(WInterleave %s %s)" % (a, b)), ("high/low", "(WConcat %s %s)" % (a, b))]
+    c = [("even/odd", "(WInterleave %s %s)" % (a, b), "REvenOdd %d %d" % unit), ("high/low", "(WConcat %s %s)" % (a, b), "RHighLow %d %d" % unit)]
     # the pair stored as it comes (the share then IS the pair): logical halves are the pair un-rotated by 5j
     for j in (1, 2, 3):
-        c.append(("even/odd.rotl%d" % (5 * j), "(WInterleave (WRotr %d %s) (WRotr %d %s))" % (32 - 5 * j, a, 32 - 5 * j, b)))
-    c += [("odd/even", "(WInterleave %s %s)" % (b, a)), ("low/high", "(WConcat %s %s)" % (b, a))]
+        c.append(("even/odd.rotl%d" % (5 * j), "(WInterleave (WRotr %d %s) (WRotr %d %s))" % (32 - 5 * j, a, 32 - 5 * j, b), "REvenOddRotl %d %d %d" % ((j,) + unit)))
+    c += [("odd/even", "(WInterleave %s %s)" % (b, a), "ROddEven %d %d" % unit), ("low/high", "(WConcat %s %s)" % (b, a), "RLowHigh %d %d" % unit)]
     return c
 
 
 def settle(s, build, size=0):
     """choose, per random unit, how it enters (coordinate-wise, by concrete evaluation: every unit has its own
-    observation "logical share j = J(unit)"); -> (post, spec, description, counter-example | None)"""
+    observation "logical share j = J(unit)"); -> (post, spec, description, counter-example | None, Coq text of the choices)"""
     units = units_of(s)
     if units is None:
-        return None, None, "-", {"error": "the random words drawn by the function do not pair up into 64-bit units"}
+        return None, None, "-", {"error": "the random words drawn by the function do not pair up into 64-bit units"}, []
     cands = [candidates(u, size) for u in units]
     pick = [0] * len(units)
     U = lambda: [cands[i][k][1] for i, k in enumerate(pick)]
     try:
         post, spec = build(U())
     except IndexError:
-        return None, None, "-", {"error": "the function draws %d random units (64 bits each), fewer than the masking needs" % len(units)}
+        return None, None, "-", {"error": "the function draws %d random units (64 bits each), fewer than the masking needs" % len(units)}, []
     bad = find_cex(s.b, s.outs, post, spec, tries=4, count=True)
     if isinstance(bad, dict):
-        return None, None, "-", bad
+        return None, None, "-", bad, []
     if bad:
         cur = len(bad)
         for i in range(len(units)):
@@ -228,28 +234,35 @@ def settle(s, build, size=0):
                 break
     post, spec = build(U())
     desc = ",".join(cands[i][k][0] for i, k in enumerate(pick)) or "-"
-    return post, spec, desc, find_cex(s.b, s.outs, post, spec)
+    return post, spec, desc, find_cex(s.b, s.outs, post, spec), [cands[i][k][2] for i, k in enumerate(pick)]
 
 
 # ------------------------------------------------------------------ obligations (generic in the value algebra A)
-# an obligation: (function, name suffix, regions [(name, size, writable)], args [region | None | int], build(U) -> (post, spec), size)
+# an obligation: (function, name suffix, regions [(name, size, writable)], args [region | None | int], build(U) -> (post, spec), size,
+#                 D(A, kind, n): what Obl/MWordSpec.v needs to build the same observation / specification itself)
+def D(A, kind, n):
+    return {"kind": kind, "n": n, "be": A.coq, "max": MAXS}
+
+
+
 def basic_obligations(A, n):
     """load / store / randomize / xor (what kern_mword.py states for c64 and x86-64, here in terms of logical shares)"""
     obs = []
     fn = lambda op: "ascon_masked_word_x%d_%s" % (n, op)
     obs.append((fn("load"), "", [("word", WB, True), ("data", 8, False)], ["word", "data", None],
                 lambda U: (prog([value(A, n, 0)] + [A.logical(0, j) for j in range(1, n)] + surplus(n)),
-                           prog([be64(WB)] + [U[j - 1] for j in range(1, n)] + zeros8(n))), 0))
+                           prog([be64(WB)] + [U[j - 1] for j in range(1, n)] + zeros8(n))), 0, D(A, "KLoad", n)))
     obs.append((fn("store"), "", [("data", 8, True), ("word", WB, False)], ["data", "word"],
-                lambda U: (prog(["(WIn %d)" % i for i in range(8)]), prog(bytes_of_be(value(A, n, 8)))), 0))
+                lambda U: (prog(["(WIn %d)" % i for i in range(8)]), prog(bytes_of_be(value(A, n, 8)))), 0, D(A, "KStore", n)))
     for suffix, regs, args, sb in (("", [("dest", WB, True), ("src", WB, False)], ["dest", "src", None], WB),
                                    ("_inplace", [("word", WB, True)], ["word", "word", None], 0)):
         obs.append((fn("randomize"), suffix, regs, args,
                     lambda U, sb=sb: (prog([value(A, n, 0)] + [A.logical(0, j) for j in range(n)] + surplus(n)),
                                       prog([value(A, n, sb)] + [xor_all([A.logical(sb, 0)] + [U[j - 1] for j in range(1, n)])] +
-                                           ["(WXor %s %s)" % (A.logical(sb, j), U[j - 1]) for j in range(1, n)] + surplus(n))), 0))
+                                           ["(WXor %s %s)" % (A.logical(sb, j), U[j - 1]) for j in range(1, n)] + surplus(n))), 0,
+                    D(A, "(KRandomize %s)" % ("true" if suffix else "false"), n)))
     obs.append((fn("xor"), "", [("dest", WB, True), ("src", WB, False)], ["dest", "src"],
-                lambda U: (prog([value(A, n, 0)] + surplus(n)), prog(["(WXor %s %s)" % (value(A, n, 0), value(A, n, WB))] + surplus(n))), 0))
+                lambda U: (prog([value(A, n, 0)] + surplus(n)), prog(["(WXor %s %s)" % (value(A, n, 0), value(A, n, WB))] + surplus(n))), 0, D(A, "KXor", n)))
     return obs
 
 
@@ -261,9 +274,9 @@ def conv_obligations(A):
                 continue
             fn = "ascon_masked_word_x%d_from_x%d" % (n, m)
             obs.append((fn, "", [("dest", WB, True), ("src", WB, False)], ["dest", "src", None],
-                        lambda U, n=n, m=m: (prog([value(A, n, 0)] + surplus(n)), prog([value(A, m, WB)] + zeros8(n))), 0))
+                        lambda U, n=n, m=m: (prog([value(A, n, 0)] + surplus(n)), prog([value(A, m, WB)] + zeros8(n))), 0, D(A, "(KFromX %d false)" % m, n)))
             obs.append((fn, "_inplace", [("word", WB, True)], ["word", "word", None],
-                        lambda U, n=n, m=m: (prog([value(A, n, 0)] + surplus(n)), prog([value(A, m, 0)] + zeros8(n))), 0))
+                        lambda U, n=n, m=m: (prog([value(A, n, 0)] + surplus(n)), prog([value(A, m, 0)] + zeros8(n))), 0, D(A, "(KFromX %d true)" % m, n)))
     return obs
 
 
@@ -274,27 +287,29 @@ def more_obligations(A, n):
     # zero(word, trng): value 0, every share j >= 1 is its own fresh unit, surplus shares cleared
     obs.append((fn("zero"), "", [("word", WB, True)], ["word", None],
                 lambda U: (prog([value(A, n, 0)] + [A.logical(0, j) for j in range(1, n)] + surplus(n)),
-                           prog(["(WConst 64 0)"] + [U[j - 1] for j in range(1, n)] + zeros8(n))), 0))
+                           prog(["(WConst 64 0)"] + [U[j - 1] for j in range(1, n)] + zeros8(n))), 0, D(A, "KZero", n)))
     # load_partial(word, data, size, trng): the data bytes in the top `size` bytes of the value, the rest zero
     for size in range(0, 8):
         obs.append((fn("load_partial"), "_%d" % size, [("word", WB, True), ("data", size, False)], ["word", "data", size, None],
                     lambda U, size=size: (prog([value(A, n, 0)] + [A.logical(0, j) for j in range(1, n)] + surplus(n)),
-                                          prog([left_aligned(WB, size)] + [U[j - 1] for j in range(1, n)] + zeros8(n))), size))
+                                          prog([left_aligned(WB, size)] + [U[j - 1] for j in range(1, n)] + zeros8(n))), size, D(A, "(KLoadPartial %d)" % size, n)))
     # load_32(word, data1, data2, trng)
     obs.append((fn("load_32"), "", [("word", WB, True), ("data1", 4, False), ("data2", 4, False)], ["word", "data1", "data2", None],
                 lambda U: (prog([value(A, n, 0)] + [A.logical(0, j) for j in range(1, n)] + surplus(n)),
-                           prog(["(WConcat %s %s)" % (be32(WB), be32(WB + 4))] + [U[j - 1] for j in range(1, n)] + zeros8(n))), 0))
+                           prog(["(WConcat %s %s)" % (be32(WB), be32(WB + 4))] + [U[j - 1] for j in range(1, n)] + zeros8(n))), 0, D(A, "KLoad32", n)))
     # store_partial(data, size, word): the top `size` bytes of the value (the buffer has exactly `size` bytes)
     for size in range(0, 8):
         obs.append((fn("store_partial"), "_%d" % size, [("data", size, True), ("word", WB, False)], ["data", size, "word"],
-                    lambda U, size=size: (prog(["(WIn %d)" % i for i in range(size)]), prog(bytes_of_be(value(A, n, size))[:size])), 0))
+                    lambda U, size=size: (prog(["(WIn %d)" % i for i in range(size)]), prog(bytes_of_be(value(A, n, size))[:size])), 0,
+                    D(A, "(KStorePartial %d)" % size, n)))
     # replace(dest, src, size): top `size` bytes of the value from src, the others from dest; surplus shares of dest untouched
     for size in range(0, 8):
         hi = (M64 << (64 - 8 * size)) & M64
         lo = M64 ^ hi
         obs.append((fn("replace"), "_%d" % size, [("dest", WB, True), ("src", WB, False)], ["dest", "src", size],
                     lambda U, hi=hi, lo=lo: (prog([value(A, n, 0)] + surplus(n)),
-                                             prog(["(WOr (WAnd %s (WConst 64 %d)) (WAnd %s (WConst 64 %d)))" % (value(A, n, 0), lo, value(A, n, WB), hi)] + surplus(n))), 0))
+                                             prog(["(WOr (WAnd %s (WConst 64 %d)) (WAnd %s (WConst 64 %d)))" % (value(A, n, 0), lo, value(A, n, WB), hi)] + surplus(n))), 0,
+                    D(A, "(KReplace %d)" % size, n)))
     return obs
 
 
@@ -306,10 +321,10 @@ def marker_obligations(A):
         c = 0x80 << (56 - 8 * off)
         obs.append(("ascon_masked_word_pad", "_%d" % off, [("word", WB, True)], ["word", off],
                     lambda U, c=c: (prog([value(A, n, 0) for n in (2, 3, 4)] + rest),
-                                    prog(["(WXor %s (WConst 64 %d))" % (value(A, n, 0), c) for n in (2, 3, 4)] + rest)), 0))
+                                    prog(["(WXor %s (WConst 64 %d))" % (value(A, n, 0), c) for n in (2, 3, 4)] + rest)), 0, D(A, "(KPad %d)" % off, 0)))
     obs.append(("ascon_masked_word_separator", "", [("word", WB, True)], ["word"],
                 lambda U: (prog([value(A, n, 0) for n in (2, 3, 4)] + rest),
-                           prog(["(WXor %s (WConst 64 1))" % value(A, n, 0) for n in (2, 3, 4)] + rest)), 0))
+                           prog(["(WXor %s (WConst 64 1))" % value(A, n, 0) for n in (2, 3, 4)] + rest)), 0, D(A, "KSeparator", 0)))
     return obs
 
 
@@ -332,14 +347,14 @@ def key_obligations(A, n, bits):
                [x for w in range(nw) for x in surplus(n, KW * w)]
         spec = vals + [U[w * (n - 1) + j - 1] for w in range(nw) for j in range(1, n)] + [x for w in range(nw) for x in zeros8(n)]
         return prog(post), prog(spec)
-    obs.append((fn("init"), "", [("masked", KW * nw, True, False), ("key", kb, False, True)], ["masked", "key"], b_init, 0))
+    obs.append((fn("init"), "", [("masked", KW * nw, True, False), ("key", kb, False, True)], ["masked", "key"], b_init, 0, D(A, "(KKeyInit %d)" % bits, n)))
 
     def b_extract(U):
         spec = bytes_of_be(value(A, n, kb)) + bytes_of_be(value(A, n, kb + KW))
         if bits == 160:
             spec += bytes_of_be(value(A, n, kb + 2 * KW))[:4]
         return prog(["(WIn %d)" % i for i in range(kb)]), prog(spec)
-    obs.append((fn("extract"), "", [("key", kb, True, True), ("masked", KW * nw, False, True)], ["masked", "key"], b_extract, 0))
+    obs.append((fn("extract"), "", [("key", kb, True, True), ("masked", KW * nw, False, True)], ["masked", "key"], b_extract, 0, D(A, "(KKeyExtract %d)" % bits, n)))
 
     def b_rand(U):
         post, spec = [], []
@@ -349,7 +364,7 @@ def key_obligations(A, n, bits):
             spec += [value(A, n, KW * w)] + [xor_all([A.logical(KW * w, 0)] + [r(j) for j in range(1, n)])] + \
                     ["(WXor %s %s)" % (A.logical(KW * w, j), r(j)) for j in range(1, n)] + surplus(n, KW * w)
         return prog(post), prog(spec)
-    obs.append((fn("randomize_with_trng"), "", [("masked", KW * nw, True, True)], ["masked", None], b_rand, 0))
+    obs.append((fn("randomize_with_trng"), "", [("masked", KW * nw, True, True)], ["masked", None], b_rand, 0, D(A, "(KKeyRandomize %d)" % bits, n)))
     return obs
 
 
@@ -364,14 +379,16 @@ def state_obligations(A):
                 spec += [value(A, n, KW * w)] + [xor_all([A.logical(KW * w, 0)] + [r(j) for j in range(1, n)])] + \
                         ["(WXor %s %s)" % (A.logical(KW * w, j), r(j)) for j in range(1, n)] + surplus(n, KW * w)
             return prog(post), prog(spec)
-        obs.append(("ascon_x%d_randomize" % n, "", [("state", 5 * KW, True)], ["state", None], b_rand, 0))
+        obs.append(("ascon_x%d_randomize" % n, "", [("state", 5 * KW, True)], ["state", None], b_rand, 0, D(A, "KStRandomize", n)))
         for m in (2, 3, 4):
             fn = "ascon_x%d_copy_from_x%d" % (n, m)
             obs.append((fn, "", [("dest", 5 * KW, True), ("src", 5 * KW, False)], ["dest", "src", None],
-                        lambda U, n=n, m=m: (prog([value(A, n, KW * w) for w in range(5)]), prog([value(A, m, 5 * KW + KW * w) for w in range(5)])), 0))
+                        lambda U, n=n, m=m: (prog([value(A, n, KW * w) for w in range(5)]), prog([value(A, m, 5 * KW + KW * w) for w in range(5)])), 0,
+                        D(A, "(KStCopy %d false)" % m, n)))
             if n != m:
                 obs.append((fn, "_inplace", [("state", 5 * KW, True)], ["state", "state", None],
-                            lambda U, n=n, m=m: (prog([value(A, n, KW * w) for w in range(5)]), prog([value(A, m, KW * w) for w in range(5)])), 0))
+                            lambda U, n=n, m=m: (prog([value(A, n, KW * w) for w in range(5)]), prog([value(A, m, KW * w) for w in range(5)])), 0,
+                            D(A, "(KStCopy %d true)" % m, n)))
     return obs
 
 
@@ -379,14 +396,15 @@ def x1_obligations(A, x1word, n):
     """conversions between the unmasked state (40 bytes; x1word(base, i) = its i-th 64-bit word in the layout of the unmasked
     backend of the same build) and masked states: the values are the words, both ways"""
     obs = []
+    dx = "true" if getattr(x1word, "dx", False) else "false"      # x1word.dx = True: the unmasked state is its 40 canonical big-endian bytes
     if True:
         obs.append(("ascon_x%d_copy_from_x1" % n, "", [("dest", 5 * KW, True), ("src", 40, False)], ["dest", "src", None],
                     lambda U, n=n: (prog([value(A, n, KW * w) for w in range(5)] + [A.logical(KW * w, j) for w in range(5) for j in range(1, n)] +
                                          [x for w in range(5) for x in surplus(n, KW * w)]),
                                     prog([x1word(5 * KW, w) for w in range(5)] + [U[w * (n - 1) + j - 1] for w in range(5) for j in range(1, n)] +
-                                         [x for w in range(5) for x in zeros8(n)])), 0))
+                                         [x for w in range(5) for x in zeros8(n)])), 0, D(A, "(KStFromX1 %s)" % dx, n)))
         obs.append(("ascon_x%d_copy_to_x1" % n, "", [("dest", 40, True), ("src", 5 * KW, False)], ["dest", "src"],
-                    lambda U, n=n: (prog([x1word(0, w) for w in range(5)]), prog([value(A, n, 40 + KW * w) for w in range(5)])), 0))
+                    lambda U, n=n: (prog([x1word(0, w) for w in range(5)]), prog([value(A, n, 40 + KW * w) for w in range(5)])), 0, D(A, "(KStToX1 %s)" % dx, n)))
     return obs
 
 
@@ -466,7 +484,7 @@ class Group:
         self.t0 = time.time()
 
     def add(self, runner, ob, tag):
-        fn, suffix, regs, args, build, size = ob
+        fn, suffix, regs, args, build, size, dsc = ob
         nm = "%s_%s%s" % (self.name, fn.replace("ascon_masked_word_", "").replace("ascon_masked_", "").replace("ascon_", ""), suffix)
         title = "%s%s [%s]" % (fn, suffix.replace("_", " "), tag)
         try:
@@ -479,12 +497,13 @@ class Group:
             print("MISSING kern_mword2 %s: output left uninitialised" % nm)
             self.report[nm] = {"title": title, "translated": False, "error": "output left uninitialised"}
             return
-        post, spec, gname, cex = settle(s, build, size)
+        post, spec, gname, cex, rand = settle(s, build, size)
         if post is None:
             print("NOTE kern_mword2 %s: %s" % (nm, cex["error"]))
             post, spec = prog(["(WConst 1 0)"]), prog(["(WConst 1 1)"])       # plainly false: the proof breaks
-        self.L.append("Definition %s : fn_obl := {| fo_name := \"%s\"; fo_widths := [%s]; fo_prog := %s; fo_post := %s; fo_spec := %s |}." %
-                      (nm, title, "; ".join(map(str, s.b.in_widths)), s.b.coq_prog(s.outs), post, spec))
+        desc = coq_desc(fn, dsc["kind"], dsc["n"], rand, be=dsc["be"], front="FX86" if tag.startswith("x86") else "FLlvm", raw=False, maxs=dsc["max"])
+        self.L.append("Definition %s : fn_obl := {| fo_name := \"%s\"; fo_widths := [%s]; fo_prog := %s; fo_post := %s; fo_spec := %s; fo_desc := %s |}." %
+                      (nm, title, "; ".join(map(str, s.b.in_widths)), s.b.coq_prog(s.outs), post, spec, desc))
         self.names.append(nm)
         self.report[nm] = {"title": title, "translated": True, "random_units": len(units_of(s) or []), "random_enters": gname,
                            "instructions": len(s.b.body), "concrete_ok": cex is None, "counterexample": cex}
